@@ -22,8 +22,11 @@ from vf.core import CaseResult, Ctx, Violation, hyp_run, exc_sig
 PROP_ID = 'C16'
 LEVEL = 'exploration'
 # total cases (exhaustive box part + Hypothesis part) over all shards
-HYP_N = {'quick': 12000, 'thorough': 200000}
-BUDGET = {'quick': 262000, 'thorough': 6000000}
+HYP_N = {'quick': 12000, 'thorough': 100000}
+BOX_STRIDE = {'quick': 20, 'thorough': 1}
+# box: 178650 main tuples x (on average 4.2) exclusion lists = ~755000 cases
+BUDGET = {'quick': 50000, 'thorough': 855000}
+_DEFAULT_BUDGET = dict(BUDGET)
 EXHAUSTIVE = {'quick': False, 'thorough': True}
 RULE = (
     'Part 1: itertools.product over 14 recurrence forms (Rn/S/E, S/Pk, Pk, '
@@ -90,8 +93,7 @@ INF = None
 # the explicit listing of an unbounded set extends this many steps beyond the
 # last query point (exclusions remove at most 3 consecutive points)
 MARGIN = 6
-# box sets have < 50 points and at most 3 consecutive excluded points, so a
-# legitimate recursion over excluded points needs < 40 frames
+# frames allowed on top of 4 per consecutive excluded point
 RECURSION_ROOM = 80
 
 
@@ -487,10 +489,16 @@ def check_case(case, ctx: Ctx) -> CaseResult:
 
     # ---- compare under each admissible reading --------------------------
     old_limit = sys.getrecursionlimit()
-    if not big:
-        # box sets have < 50 points: a recursion deeper than this never
-        # terminates; fail it fast
-        sys.setrecursionlimit(_depth() + RECURSION_ROOM)
+    # cylc recurses once per consecutive excluded point; a recursion much
+    # deeper than the longest excluded run never terminates: fail it fast (a
+    # RecursionError at the default limit costs ~0.5 s)
+    run = best = 0
+    mset = set(readings[0])
+    for p in U:
+        run = 0 if p in mset else run + 1
+        best = max(best, run)
+    sys.setrecursionlimit(max(old_limit, _depth() + 200) if best > 150 else
+                          _depth() + RECURSION_ROOM + 4 * best)
     try:
         found = None
         for M in readings:
@@ -666,19 +674,13 @@ def excl_menu(case):
     return menu
 
 
-def run_box(ctx: Ctx, n_cases: int):
-    # size of the box (main tuples); the menu multiplies it by ~10
-    total_main = sum(1 for _ in main_tuples())
-    avg_menu = 10
-    stride = max(1, -(-total_main * avg_menu // max(1, n_cases)))
-    if ctx.tier == 'thorough' and n_cases >= total_main * avg_menu:
-        stride = 1
+def run_box(ctx: Ctx, stride: int):
     offset = ctx.seed % stride
     col = ctx.col
-    col.extra['box_main_tuples'] = total_main if ctx.shard == 0 else 0
-    col.extra['box_stride'] = stride if ctx.shard == 0 else 0
     j = 0
+    n_main = 0
     for idx, main in enumerate(main_tuples()):
+        n_main += 1
         if idx % stride != offset:
             continue
         j += 1
@@ -690,6 +692,9 @@ def run_box(ctx: Ctx, n_cases: int):
             col.record(case, res)
             for v in col.filter_known(res.violations):
                 col.add_violation(v, case)
+    if ctx.shard == 0:
+        col.extra['box_main_tuples'] = n_main
+        col.extra['box_stride'] = stride
 
 
 # --------------------------------------------------------------------------
@@ -744,8 +749,8 @@ def big_cases(draw):
             if any('/P' in x or x.startswith('P') for x in excl
                    if not x.startswith('R')):
                 kind = 4     # at most one unbounded exclusion sequence
-        u = U[draw(st.sampled_from([0, -1, len(U) // 2, 1 % len(U),
-                                    -2 % len(U)]))]
+        u = U[draw(st.sampled_from(
+            [0] + 3 * [-1, len(U) // 2, 1 % len(U), -2 % len(U)]))]
         if kind <= 2:
             excl.append(str(u))
         elif kind == 3:
@@ -771,7 +776,9 @@ def big_cases(draw):
 
 
 def run_shard(ctx: Ctx):
-    total = BUDGET[ctx.tier]
-    hyp_n = min(HYP_N[ctx.tier], max(1, total // 10))
-    run_box(ctx, total - hyp_n)
-    hyp_run(ctx, big_cases(), check_case, ctx.share(hyp_n))
+    # --budget below the default scales both parts down (development only)
+    scale = min(1.0, BUDGET[ctx.tier] / _DEFAULT_BUDGET[ctx.tier])
+    stride = max(1, round(BOX_STRIDE[ctx.tier] / scale))
+    run_box(ctx, stride)
+    hyp_run(ctx, big_cases(), check_case,
+            ctx.share(max(1, int(HYP_N[ctx.tier] * scale))))
